@@ -15,7 +15,7 @@ pub fn prop() -> Prop {
     rule: "case = (source: hot Subject, hot create-handle, BehaviorSubject, never, or a cold `create` script that terminates at subscription; 0..2 pass-through operators, finalize (local or finalize_threads; thread-safe build), 0..2 further operators (pass-through, or take/first, or observe_on/delay on the virtual scheduler), optionally a second finalize; history of <= 8 steps: an item prefix, then complete / error / unsubscribe (or guard drop) in any order, each possibly repeated through cloned handles, more items in between). \
            Oracle: the callback counter of every finalize is 0 until the first trigger (source completion, source error, unsubscription), equals the number of finalize operators when the triggering step returns, and never changes afterwards; when the trigger is a terminal and nothing asynchronous sits downstream, the subscriber had received that terminal before the callback ran. Non-trivial: >= 2 triggers in the history. Distinct by hash(case). Part `resubscribe`: a pipeline with 1..2 finalize operators over a cold source or a virtual-clock interval is built once; 2..3 clones are subscribed at generated (overlapping) times and each is unsubscribed 12 ticks after its start: the callbacks must have run exactly (number of finalize operators x number of subscriptions) times. Part `threads` (engine T): SubjectThreads -> finalize_threads -> probe; one thread sends 0..2 items and a terminal (complete or error, possibly twice through clones), another thread unsubscribes (possibly after an item of its own); schedule = <= 3 preemptions at lock-acquisition granularity (plus a yield inside the callback): after both threads have finished the callback has run exactly once, under every schedule; when the subscriber received the terminal the callback has run by the time the terminating call returns; the callback never runs while a notification is still being delivered to the subscriber on the other thread. Part `short` enumerates every trigger order of length <= 5 for the plain `hot.finalize()` pipeline.",
     assumptions: &[
-      "with take/first downstream of finalize only 'at most once, not before a trigger, exactly once by the time the source has terminated or the subscription was unsubscribed' is checked",
+      "with take/first downstream of finalize a Subject-backed source may never hand its terminal to the finished pipeline: then only 'at most once, not before a trigger, run by the time the subscription was unsubscribed' is checked; a `create`-backed source (cold script or harness-held handle) passes its terminal on unconditionally, so there the callback must have run when that step returns",
       "threads part: sequentially consistent interleavings at lock-acquisition granularity",
     ],
     parts: vec![
@@ -147,6 +147,19 @@ fn judge(case: &Case, tr: &Trace) -> Result<(usize, bool), (String, String)> {
     });
     t
   };
+  // a `create`-backed source (cold script or harness-held handle) hands its terminal to the pipeline unconditionally
+  // (Subscriber does not ask is_finished()), and only pass-through operators sit between it and the finalize operator:
+  // the terminal reaches finalize even when a downstream take/first has already finished
+  let create_backed = {
+    let mut t = false;
+    case.pcase.node.visit(&mut |n| {
+      if let Node::Src(Src::Create(_)) | Node::Src(Src::HotCreate(_)) = n {
+        t = true
+      }
+    });
+    t
+  };
+  let mut first_terminal: Option<usize> = if cold_terminates { Some(0) } else { None };
   let mut first_unsub: Option<usize> = None;
   let mut first_trigger: Option<usize> = if cold_terminates { Some(0) } else { None }; // index into finalize_after_step
   let mut first_is_terminal = cold_terminates;
@@ -159,6 +172,9 @@ fn judge(case: &Case, tr: &Trace) -> Result<(usize, bool), (String, String)> {
     };
     if trig == Some(false) && first_unsub.is_none() {
       first_unsub = Some(k + 1);
+    }
+    if trig == Some(true) && first_terminal.is_none() && first_unsub.is_none() {
+      first_terminal = Some(k + 1);
     }
     if let Some(is_term) = trig {
       triggers += 1;
@@ -179,7 +195,7 @@ fn judge(case: &Case, tr: &Trace) -> Result<(usize, bool), (String, String)> {
         }
         // with take/first downstream the source's terminal may never reach the finalize operator
         // (a finished observer is skipped by subjects): then only an unsubscription must run it
-        let must_have_run = !case.cutter_downstream || first_unsub.map_or(false, |u| i >= u);
+        let must_have_run = !case.cutter_downstream || first_unsub.map_or(false, |u| i >= u) || (create_backed && first_terminal.map_or(false, |t| i >= t));
         if *c < n && must_have_run {
           return Err(("not-run".into(), format!("after {step_desc}: the subscription was completed/failed/unsubscribed at {} but only {} of {} finalize callback(s) have run", if ft == 0 { "subscription".into() } else { format!("step {}", ft - 1) }, c, n)));
         }
